@@ -1515,14 +1515,25 @@ structure J17 where
   base : Int := 32768
   lim : Int := 0
   nparts : Nat := 0
-  /-- per partition: the size last asked and what came of it: none = data arrived / nothing due; some sz = an empty
-      answer although the high watermark showed data, asked with size sz -/
-  pendingGrow : List ((Bytes × Int) × Int) := []
-  /-- partitions due for a fetch of their own, oldest first -/
-  queue : List (Bytes × Int) := []
+  /-- per partition: the sizes the next request may ask with (absent = the normal size only).  After an empty answer although
+      the high watermark showed data: the doubled size capped at the limit, nothing else; after a delivery: the normal size,
+      nothing else; where the property is silent (an empty answer at the end of the log, a seek): the size last used or the
+      normal one -/
+  expect : List ((Bytes × Int) × List Int) := []
+  /-- partitions whose last answer in a successful poll was empty although behind the high watermark -/
+  behind : List (Bytes × Int) := []
+  /-- the possible contents of "due for a fetch of its own, oldest first" (several when a poll failed before its request
+      could be observed, or failed after it: the property does not say whether the turn is then used up) -/
+  queues : List (List (Bytes × Int)) := [[]]
   /-- consecutive polls in which a stuck partition neither delivered nor was reported -/
   stuckPolls : Nat := 0
+  /-- consecutive failed polls that asked for one and the same partition alone (others assigned) -/
+  aloneFails : Nat := 0
+  aloneWho : Option (Bytes × Int) := none
   out : List String := []
+
+def dedupQ (xs : List (List (Bytes × Int))) : List (List (Bytes × Int)) :=
+  xs.foldl (fun acc x => if acc.contains x then acc else acc ++ [x]) []
 
 def judgeC17 (ops : List OpRec) : List String :=
   let v (s : J17) (sig : String) (op : OpRec) (d : String) : J17 :=
@@ -1536,7 +1547,14 @@ def judgeC17 (ops : List OpRec) : List String :=
       let lim := ((lastOpt opts "retrylimit").bind (·.toInt?)).getD 0
       let topics : List Bytes := opts.filterMap fun o => let (k, x) := kv o; if k == "topic" then fromHex x else none
       let n := (topics.map fun (t : Bytes) => ((s.cluster.topic? t).map (fun (ts : TopicState) => ts.parts.length)).getD 0).foldl (· + ·) 0
-      { s with base := base, lim := lim, nparts := n, pendingGrow := [], stuckPolls := 0 }
+      { s with base := base, lim := lim, nparts := n, expect := [], behind := [], queues := [[]], stuckPolls := 0 }
+    | ["seek", t, p, _] =>
+      match fromHex t, p.toInt? with
+      | some t, some p =>
+        let cur := ((s.expect.find? (fun (y : (Bytes × Int) × List Int) => y.1 == (t, p))).map (fun (y : (Bytes × Int) × List Int) => y.2)).getD [s.base]
+        let cur := if cur.contains s.base then cur else cur ++ [s.base]
+        { s with expect := (s.expect.filter fun (y : (Bytes × Int) × List Int) => y.1 != (t, p)) ++ [((t, p), cur)] }
+      | _, _ => s
     | ["poll"] =>
       let asked : List (Bytes × Int × Int × Nat) := (framesOf op).flatMap fun (x : Bytes × Request) => match x.2.body with
         | ReqBody.fetch _ _ _ ts =>
@@ -1544,27 +1562,42 @@ def judgeC17 (ops : List OpRec) : List String :=
           ts.flatMap fun (tp : Bytes × List FetchPart) => tp.2.map fun (fp : FetchPart) => (tp.1, fp.partition, fp.maxBytes, cnt)
         | _ => []
       let totalAsked := asked.length
-      -- 1. sizes: never above max(base, limit); after an empty-but-behind answer: doubled up to the limit, and alone
+      let askedTPs : List (Bytes × Int) := asked.map fun (x : Bytes × Int × Int × Nat) => (x.1, x.2.1)
+      let failed := op.result.startsWith "err"
+      let ioFault := op.evs.any (fun e => match e with | .io _ _ => true | .connect _ ok => !ok | _ => false)
+      let codeFault := bodies.any fun (x : Bytes × Request × RespBody) => match x.2.2 with
+        | RespBody.fetch ts => ts.any fun (tp : Bytes × List FetchPartResp) => tp.2.any fun (pr : FetchPartResp) => pr.err ≠ 0
+        | _ => false
+      -- 1. sizes: never above max(base, limit); after an empty-but-behind answer: doubled up to the limit; after a delivery: normal
       let s := asked.foldl (fun (s : J17) (x : Bytes × Int × Int × Nat) =>
         let t := x.1; let p := x.2.1; let sz := x.2.2.1
         let s := if sz ≤ max s.base s.lim then s else v s "C17-size-above-limit" op s!"{toHexTok t}/{p} asked with max_bytes {sz}; normal size {s.base}, retry limit {s.lim}"
-        match s.pendingGrow.find? (fun (y : (Bytes × Int) × Int) => y.1 == (t, p)) with
-        | some (_, prev) =>
-          let want := if prev < s.lim then (if prev + prev > s.lim then s.lim else prev + prev) else prev
-          if sz == want then s else v s "C17-size-sequence" op s!"{toHexTok t}/{p}: after an empty answer at size {prev} the next request asks {sz}, expected {want} (limit {s.lim})"
-        | none => if sz == s.base then s else v s "C17-size-not-reset" op s!"{toHexTok t}/{p} asked with {sz} although nothing is pending; normal size {s.base}"
+        let acc := ((s.expect.find? (fun (y : (Bytes × Int) × List Int) => y.1 == (t, p))).map (fun (y : (Bytes × Int) × List Int) => y.2)).getD [s.base]
+        if acc.contains sz then s
+        else if acc == [s.base] then v s "C17-size-not-reset" op s!"{toHexTok t}/{p} asked with {sz} although its last fetch delivered (or nothing was ever pending); normal size {s.base}"
+        else v s "C17-size-sequence" op s!"{toHexTok t}/{p}: the request asks {sz}, expected one of {acc} (normal size {s.base}, limit {s.lim})"
         ) s
-      -- 1b. a partition queued for a retry is fetched alone, oldest first
-      let s := match s.queue with
-        | q :: rest =>
-          let s := if asked.map (fun (x : Bytes × Int × Int × Nat) => (x.1, x.2.1)) == [q] then s
-            else v s "C17-not-alone" op s!"{toHexTok q.1}/{q.2} was due for a fetch of its own; this poll asked for {asked.map fun (x : Bytes × Int × Int × Nat) => (toHexTok x.1, x.2.1)}"
-          { s with queue := rest }
-        | [] =>
-          -- nothing is due for a fetch of its own: every partition is asked for, the others keep being delivered
-          let ioFault := op.evs.any (fun e => match e with | .io _ _ => true | .connect _ ok => !ok | _ => false)
-          if ioFault || asked.isEmpty || totalAsked == s.nparts then s
-          else v s "C17-others-starved" op s!"no partition is due for a fetch of its own, yet this poll asked for {asked.map fun (x : Bytes × Int × Int × Nat) => (toHexTok x.1, x.2.1)} only ({s.nparts} partitions are assigned)"
+      -- 1b. a partition due for a fetch of its own is fetched alone, oldest first; with nothing due every partition is asked for
+      let step (q : List (Bytes × Int)) : List (List (Bytes × Int)) :=
+        if askedTPs.isEmpty then [q, q.tail]
+        else match q with
+          | x :: rest => if askedTPs == [x] then (if failed then [rest, q] else [rest]) else []
+          | [] => if totalAsked == s.nparts then [[]] else []
+      let nexts := dedupQ (s.queues.flatMap step)
+      let s := if !nexts.isEmpty then s
+        else match s.queues.find? (fun (q : List (Bytes × Int)) => !q.isEmpty) with
+          | some (x :: _) => v s "C17-not-alone" op s!"{toHexTok x.1}/{x.2} was due for a fetch of its own; this poll asked for {asked.map fun (x : Bytes × Int × Int × Nat) => (toHexTok x.1, x.2.1)}"
+          | _ => v s "C17-others-starved" op s!"no partition is due for a fetch of its own, yet this poll asked for {asked.map fun (x : Bytes × Int × Int × Nat) => (toHexTok x.1, x.2.1)} only ({s.nparts} partitions are assigned)"
+      let nexts := if nexts.isEmpty then [[]] else nexts
+      -- 1c. the others keep being delivered: a partition is not fetched alone, failing, poll after poll
+      let aloneNow : Option (Bytes × Int) := match askedTPs with
+        | [x] => if s.nparts > 1 && failed then some x else none
+        | _ => none
+      let fails := match aloneNow with
+        | some x => if s.aloneWho == some x then s.aloneFails + 1 else 1
+        | none => if askedTPs.isEmpty then s.aloneFails else 0
+      let s := { s with aloneFails := fails, aloneWho := if aloneNow.isSome then aloneNow else (if askedTPs.isEmpty then s.aloneWho else none) }
+      let s := if fails == 3 then v s "C17-others-starved" op s!"{askedTPs.map fun (x : Bytes × Int) => (toHexTok x.1, x.2)} was fetched alone by {fails} failing polls in a row; {s.nparts} partitions are assigned and none of the others was asked for" else s
       -- 2. outcome per partition from the broker's answers
       let answers : List ((Bytes × Int) × (Bool × Bool)) := bodies.flatMap fun (x : Bytes × Request × RespBody) =>
         let reqOff (t : Bytes) (p : Int) : Int := match x.2.1.body with
@@ -1576,27 +1609,32 @@ def judgeC17 (ops : List OpRec) : List String :=
             let got := !(exposed leanDec 4 pr.set (reqOff tp.1 pr.partition)).isEmpty
             ((tp.1, pr.partition), (got, reqOff tp.1 pr.partition < pr.hw))
         | _ => []
-      let failed := op.result.startsWith "err"
-      -- 3. a single-partition fetch that is at (or beyond) the limit and still empty must be reported
+      let sizeOf (a : (Bytes × Int) × (Bool × Bool)) : Int :=
+        ((asked.find? (fun (x : Bytes × Int × Int × Nat) => (x.1, x.2.1) == a.1)).map (fun (x : Bytes × Int × Int × Nat) => x.2.2.1)).getD s.base
+      -- 3. an undisturbed single-partition fetch that is at (or beyond) the limit and still empty must be reported
       let s := answers.foldl (fun (s : J17) (a : (Bytes × Int) × (Bool × Bool)) =>
-        let sz := ((asked.find? (fun (x : Bytes × Int × Int × Nat) => (x.1, x.2.1) == a.1)).map (fun (x : Bytes × Int × Int × Nat) => x.2.2.1)).getD s.base
-        if !a.2.1 && a.2.2 && totalAsked == 1 && !(sz < s.lim) then
+        let sz := sizeOf a
+        if !a.2.1 && a.2.2 && totalAsked == 1 && !(sz < s.lim) && !ioFault && !codeFault then
           (if op.result == "err Kafka(10)" then s else v s "C17-not-reported" op s!"{toHexTok a.1.1}/{a.1.2}: fetched alone at size {sz} (limit {s.lim}), nothing fits, result `{op.result}`")
         else s) s
-      -- 4. update pending growth
-      let pg := if failed then s.pendingGrow else
-        answers.foldl (fun (pg : List ((Bytes × Int) × Int)) (a : (Bytes × Int) × (Bool × Bool)) =>
-          let sz := ((asked.find? (fun (x : Bytes × Int × Int × Nat) => (x.1, x.2.1) == a.1)).map (fun (x : Bytes × Int × Int × Nat) => x.2.2.1)).getD s.base
-          let pg := pg.filter fun (y : (Bytes × Int) × Int) => y.1 != a.1
-          if !a.2.1 && a.2.2 then pg ++ [(a.1, sz)] else pg) s.pendingGrow
+      -- 4. what the next request of each answered partition may ask with
+      let grow (sz : Int) : Int := if sz < s.lim then (if sz + sz > s.lim then s.lim else sz + sz) else sz
+      let (ex, bh) := if failed then (s.expect, s.behind) else
+        answers.foldl (fun (acc : List ((Bytes × Int) × List Int) × List (Bytes × Int)) (a : (Bytes × Int) × (Bool × Bool)) =>
+          let sz := sizeOf a
+          let ex := acc.1.filter fun (y : (Bytes × Int) × List Int) => y.1 != a.1
+          let bh := acc.2.filter fun (y : Bytes × Int) => y != a.1
+          if a.2.1 then (ex, bh)
+          else if a.2.2 then (ex ++ [(a.1, [grow sz])], bh ++ [a.1])
+          else (ex ++ [(a.1, if sz == s.base then [sz] else [sz, s.base])], bh)) (s.expect, s.behind)
       -- 5. never stall: with something pending, polls must deliver, grow or report within a bound
-      let progressed := failed || answers.any (fun (a : (Bytes × Int) × (Bool × Bool)) => a.2.1) || pg != s.pendingGrow
-      let stuck := if !pg.isEmpty && !progressed then s.stuckPolls + 1 else 0
-      let s := if stuck > s.nparts + 3 then v s "C17-stalled" op s!"{stuck} polls in a row neither delivered, grew a size nor reported, with {pg.length} partition(s) behind their high watermark" else s
+      let progressed := failed || answers.any (fun (a : (Bytes × Int) × (Bool × Bool)) => a.2.1) || ex != s.expect
+      let stuck := if !bh.isEmpty && !progressed then s.stuckPolls + 1 else 0
+      let s := if stuck > s.nparts + 3 then v s "C17-stalled" op s!"{stuck} polls in a row neither delivered, grew a size nor reported, with {bh.length} partition(s) behind their high watermark" else s
       -- a successful poll of a multi-partition consumer queues every empty-but-behind partition for a fetch of its own
-      let queue := if failed || s.nparts ≤ 1 then s.queue else
-        s.queue ++ (answers.filter fun (a : (Bytes × Int) × (Bool × Bool)) => !a.2.1 && a.2.2).map (fun (a : (Bytes × Int) × (Bool × Bool)) => a.1)
-      { s with pendingGrow := pg, stuckPolls := stuck, queue := queue }
+      let newq := if failed || s.nparts ≤ 1 then [] else
+        (answers.filter fun (a : (Bytes × Int) × (Bool × Bool)) => !a.2.1 && a.2.2).map (fun (a : (Bytes × Int) × (Bool × Bool)) => a.1)
+      { s with expect := ex, behind := bh, stuckPolls := stuck, queues := nexts.map (· ++ newq) }
     | _ => s
     { s with cluster := c' }) ({} : J17)
   -- other partitions keep being delivered without loss: C01's demands (an entry that cannot fit is reported by every
